@@ -221,11 +221,210 @@ end Plan
     graph the loop accepts (it needs the state of the loop as a single dependent type; the per-step
     identification is `step_preserves_unroll`).  The executable loop is tied to these statements by the
     run-time echo `psp = unroll` on every generated case. -/
-theorem sum_product_exact_partial {Res E : Type} [Fintype Res] [DecidableEq Res]
+theorem sum_product_exact_partial {R : Type} [CommSemiring R] {Res E : Type} [Fintype Res] [DecidableEq Res]
     (results : Res → Plan R Unit E) (env : E) :
     ∏ r, (results r).eval () env
       = ∑ X : ∀ r, (results r).Copies, ∏ r, (results r).inst () env (X r) := by
   simp_rw [Plan.nested_eq_unrolled]
   rw [Finset.prod_univ_sum, Fintype.piFinset_univ]
+
+/-! ## 4. where the hypotheses of the step come from: the ordinal bookkeeping -/
+
+section Bookkeeping
+
+variable {P Vn F : Type} [DecidableEq P]
+
+/-- `max(ordinal_to_factors, key=len)` is inclusion-maximal: no pending key strictly contains it. -/
+theorem leaf_maximal {keys : Finset (Finset P)} {L o : Finset P}
+    (hmax : ∀ o ∈ keys, o.card ≤ L.card) (ho : o ∈ keys) (hsub : L ⊆ o) : o = L :=
+  (Finset.eq_of_subset_of_card_le hsub (hmax o ho)).symm
+
+/-- Loop invariant `O v ⊆ key f` for every pending factor `f` mentioning a summed variable `v`
+    ⇒ a variable whose ordinal is the leaf occurs only in factors filed under the leaf.  (So the other
+    factors can be typed without it: `Oth` in `step_preserves_unroll`.) -/
+theorem leaf_var_only_in_leaf_factors (key : F → Finset P) (mentions : F → Vn → Prop)
+    (O : Vn → Finset P) (pending : Finset F) (L : Finset P)
+    (hinv : ∀ f ∈ pending, ∀ v, mentions f v → O v ⊆ key f)
+    (hmax : ∀ f ∈ pending, (key f).card ≤ L.card)
+    {v : Vn} {f : F} (hv : O v = L) (hf : f ∈ pending) (hm : mentions f v) : key f = L :=
+  (Finset.eq_of_subset_of_card_le (hv ▸ hinv f hf v hm) (hmax f hf)).symm
+
+/-- The invariant holds initially: `var_to_ordinal[v]` is the intersection of the ordinals of the
+    factors mentioning `v`. -/
+theorem invariant_initial [Fintype P] (key : F → Finset P) (mentions : F → Vn → Prop)
+    [∀ f v, Decidable (mentions f v)] (pending : Finset F) (O : Vn → Finset P)
+    (hO : ∀ v, O v = Finset.univ.filter fun p => ∀ f ∈ pending, mentions f v → p ∈ key f) :
+    ∀ f ∈ pending, ∀ v, mentions f v → O v ⊆ key f := by
+  intro f hf v hm p hp
+  rw [hO v, Finset.mem_filter] at hp
+  exact hp.2 f hf hm
+
+variable [DecidableEq Vn]
+
+/-- `new_plates ⊆ leaf`; the loop raises "intractable!" exactly when it is not a strict subset. -/
+theorem newPlates_subset_leaf (O : Vn → Finset P) (remaining : Finset Vn) (L : Finset P)
+    (h : ∀ v ∈ remaining, O v ⊆ L) : remaining.biUnion O ⊆ L :=
+  Finset.biUnion_subset.2 h
+
+/-- The invariant is re-established for the new factor filed under `new_plates`. -/
+theorem invariant_new_factor (O : Vn → Finset P) (remaining : Finset Vn) {v : Vn} (hv : v ∈ remaining) :
+    O v ⊆ remaining.biUnion O :=
+  Finset.subset_biUnion_of_mem O hv
+
+/-- The variables that remain do not live in the plates being multiplied out. -/
+theorem remaining_not_in_reduced (O : Vn → Finset P) (remaining : Finset Vn) (L : Finset P)
+    {v : Vn} (hv : v ∈ remaining) {p : P} (hp : p ∈ L \ remaining.biUnion O) : p ∉ O v := by
+  intro hpv
+  exact (Finset.mem_sdiff.1 hp).2 (Finset.mem_biUnion.2 ⟨v, hv, hpv⟩)
+
+end Bookkeeping
+
+/-! ### the intended index types: assignments of a set of plates -/
+
+section Idx
+
+variable {P : Type} [DecidableEq P] (I : P → Type)
+
+/-- Assignments of the plates in `o` (`I p` = the index type of plate `p`). -/
+abbrev Idx (o : Finset P) : Type := ∀ p : {p // p ∈ o}, I p.1
+
+/-- Restriction to a smaller ordinal: which copy of a variable of ordinal `o'` an instance sees. -/
+def res {o' o : Finset P} (h : o' ⊆ o) (i : Idx I o) : Idx I o' := fun p => i ⟨p.1, h p.2⟩
+
+theorem res_trans {o'' o' o : Finset P} (h' : o'' ⊆ o') (h : o' ⊆ o) (i : Idx I o) :
+    res I h' (res I h i) = res I (h'.trans h) i := rfl
+
+/-- An assignment of the leaf plates = an assignment of `new_plates` and one of `leaf - new_plates`. -/
+def splitIdx {N L : Finset P} (h : N ⊆ L) : Idx I N × Idx I (L \ N) ≃ Idx I L where
+  toFun jk := fun p =>
+    if hp : p.1 ∈ N then jk.1 ⟨p.1, hp⟩ else jk.2 ⟨p.1, Finset.mem_sdiff.2 ⟨p.2, hp⟩⟩
+  invFun i := (fun p => i ⟨p.1, h p.2⟩, fun p => i ⟨p.1, (Finset.mem_sdiff.1 p.2).1⟩)
+  left_inv jk := by
+    rcases jk with ⟨j, k⟩
+    refine Prod.ext (funext fun p => ?_) (funext fun p => ?_)
+    · simp [p.2]
+    · have : p.1 ∉ N := (Finset.mem_sdiff.1 p.2).2
+      simp [this]
+  right_inv i := by
+    funext p
+    by_cases hp : p.1 ∈ N <;> simp [hp]
+
+/-- `hres` of `hlook_of_vars` in the intended model: a variable whose ordinal is inside `new_plates`
+    sees, from instance `(j,k)` of the leaf, the copy determined by `j` alone. -/
+theorem res_splitIdx {O N L : Finset P} (hON : O ⊆ N) (h : N ⊆ L) (j : Idx I N) (k : Idx I (L \ N)) :
+    res I (hON.trans h) (splitIdx I h (j, k)) = res I hON j := by
+  funext p
+  simp [res, splitIdx, hON p.2]
+
+end Idx
+
+/-- The hypotheses of `step_preserves_unroll` are satisfiable in the intended model: one plate `p` of
+    size 2 multiplied out (`leaf = {p}`, `new_plates = ∅`), a boolean variable local to the plate summed,
+    a boolean variable outside the plate remaining.  (Value: both sides are the same number.) -/
+example (f : Bool → Bool → Bool → ℕ) (g : Bool → ℕ) :
+    unrollBefore (W := Unit) (V := Unit) (C := Unit) (Oth := Unit) (ι := Bool) (DW := fun _ => Bool)
+        (DV := fun _ => Bool) (κ := fun _ => Unit) (ιO := fun _ => Unit)
+        (fun _ i (d : Unit → Bool) (env : Unit → Bool) => f i (d ()) (env ())) (fun _ _ _ => ())
+        (fun _ _ (env : Unit → Bool) => g (env ())) (fun _ _ _ => ())
+      = unrollAfter (W := Unit) (V := Unit) (C := Unit) (Oth := Unit) (ι := Bool) (DW := fun _ => Bool)
+        (DV := fun _ => Bool) (κ := fun _ => Unit) (ιO := fun _ => Unit) (ν := Unit) (κr := Bool)
+        (Equiv.punitProd Bool)
+        (fun _ i (d : Unit → Bool) (env : Unit → Bool) => f i (d ()) (env ())) (fun _ _ => ())
+        (fun _ _ (env : Unit → Bool) => g (env ())) (fun _ _ _ => ()) :=
+  step_preserves_unroll _ _ _ _ _ _ (fun _ _ _ _ _ => rfl)
+
+/-! ## 5. facts about the executable model (`FV.C09`, any carrier, any operations) -/
+
+section Exec
+open FV.C09
+
+variable {α : Type}
+
+/-- `chooseLeaf` returns a pending key … -/
+theorem chooseLeaf_mem : ∀ (pend : List (List Name × List (Factor α))) (L : List Name),
+    chooseLeaf pend = some L → L ∈ pend.map (·.1)
+  | [], L, h => by simp [chooseLeaf] at h
+  | (k, fs) :: rest, L, h => by
+    simp only [chooseLeaf] at h
+    cases hr : chooseLeaf rest with
+    | none => rw [hr] at h; simp at h; simp [h]
+    | some k' =>
+      rw [hr] at h
+      by_cases hlt : k'.length > k.length
+      · simp [hlt] at h
+        have := chooseLeaf_mem rest k' hr
+        simp only [List.map_cons, List.mem_cons]
+        exact Or.inr (h ▸ this)
+      · simp [hlt] at h; simp [h]
+
+/-- … of maximal length (hence inclusion-maximal, `leaf_maximal`). -/
+theorem chooseLeaf_max : ∀ (pend : List (List Name × List (Factor α))) (L : List Name),
+    chooseLeaf pend = some L → ∀ kf ∈ pend, kf.1.length ≤ L.length
+  | [], L, h => by simp [chooseLeaf] at h
+  | (k, fs) :: rest, L, h => by
+    simp only [chooseLeaf] at h
+    intro kf hkf
+    cases hr : chooseLeaf rest with
+    | none =>
+      rw [hr] at h; simp at h
+      cases rest with
+      | nil => simp at hkf; simp [hkf, ← h]
+      | cons x xs =>
+        simp only [chooseLeaf] at hr
+        cases hx : chooseLeaf xs with
+        | none => simp [hx] at hr
+        | some k'' => simp only [hx] at hr; split at hr <;> simp at hr
+    | some k' =>
+      rw [hr] at h
+      have ih := chooseLeaf_max rest k' hr
+      rcases List.mem_cons.1 hkf with rfl | hmem
+      · by_cases hlt : k'.length > k.length
+        · simp [hlt] at h; subst h; exact Nat.le_of_lt hlt
+        · simp [hlt] at h; subst h; exact Nat.le_refl _
+      · by_cases hlt : k'.length > k.length
+        · simp [hlt] at h; subst h; exact ih kf hmem
+        · simp [hlt] at h; subst h; exact Nat.le_trans (ih kf hmem) (Nat.le_of_not_lt hlt)
+
+/-- `intractable_raises`: when summed variables remain in a component and the union of their ordinals
+    is the whole leaf (a discrete variable would have to be replicated), the component step returns
+    the error, never a value. -/
+theorem intractable_raises (o : Ops α) (c : Cfg) (leaf : List Name) (st : St α)
+    (grp : List (Factor α) × List Name) (f : Factor α)
+    (hf : (prodAll o grp.1).bind (sumOut o · (inter grp.2 c.elim)) = some f)
+    (hrem : (c.S.filter f.has).isEmpty = false)
+    (hnp : sset ((c.S.filter f.has).flatMap fun v => (c.O.lookup v).getD []) = leaf) :
+    component o c leaf st grp = .error .intractable := by
+  unfold component
+  simp only [hf, hrem, hnp]
+  simp
+
+/-- An error in one component aborts the iteration … -/
+theorem component_error_aborts (o : Ops α) (c : Cfg) (leaf : List Name) (st : St α)
+    (grp : List (Factor α) × List Name) (rest : List (List (Factor α) × List Name)) (e : Err)
+    (h : component o c leaf st grp = .error e) :
+    (grp :: rest).foldlM (component o c leaf) st = .error e := by
+  simp [List.foldlM, h, bind, Except.bind]
+
+/-- … and the whole loop: no value is returned. -/
+theorem loop_error_propagates (o : Ops α) (c : Cfg) (fuel : Nat) (st : St α) (leaf : List Name) (e : Err)
+    (hl : chooseLeaf st.pending = some leaf)
+    (h : (partition ((c.O.filter (·.2 == leaf)).map (·.1)) ((st.pending.lookup leaf).getD []).length
+            ((st.pending.lookup leaf).getD [])).foldlM (component o c leaf)
+          { st with pending := st.pending.filter (·.1 != leaf) } = .error e) :
+    pspLoop o c (fuel + 1) st = .error e := by
+  simp only [pspLoop, hl, h]
+
+/-- The loop returns its results exactly when nothing is pending. -/
+theorem loop_done (o : Ops α) (c : Cfg) (fuel : Nat) (st : St α) (h : st.pending = []) :
+    pspLoop o c (fuel + 1) st = .ok st.results := by
+  simp [pspLoop, h, chooseLeaf]
+
+/-- Non-vacuity of `intractable_raises`: `f(a,b,i,j) g(a,i) h(b,j)` with everything eliminated. -/
+example :
+    (psp (α := Nat) ⟨(· + ·), (· * ·), 0, 1⟩
+      [⟨[("a", 1), ("b", 1), ("i", 1), ("j", 1)], [1]⟩, ⟨[("a", 1), ("i", 1)], [1]⟩, ⟨[("b", 1), ("j", 1)], [1]⟩]
+      ["a", "b", "i", "j"] ["i", "j"] [] false false).toOption = none := by decide
+
+end Exec
 
 end FV.Props.C09
